@@ -18,7 +18,7 @@ func checkC04(p *Prog, r *Report) {
 	c04Expected(p, r)
 	c04Pipeline(p, r, "C04.R3")
 	c04Transform(p, r, "C04.R4")
-	c04LoadYear(p, r)
+	c04LoadYear(p, r, "C04.R5")
 	c04DayCounter(p, r)
 	c04Dispatch(p, r)
 	c04StartOffset(p, r, "C04.R7")
@@ -213,7 +213,23 @@ func sharesAtoms(q, d Poly) bool {
 // ---------------------------------------------------------------- R3 pipeline
 
 func c04Pipeline(p *Prog, r *Report, rule string) {
-	r.Rule(rule, "normalisation pipeline: every success path of a reader first replaces missing values and then applies the unit transformation, both over the same number of years", 3)
+	r.Rule(rule, "normalisation pipeline: every success path of a reader first replaces missing values and then applies the unit transformation, both over the same number of years; the reader stores nothing into the fields those routines use after they have run", 3)
+	// fields of the shared weather record that the normalisation routines (and the correction lookup) touch
+	normFields := map[string]bool{}
+	for _, k := range []string{"hermes.WeatherDataShared.replaceMissingValues", "hermes.WeatherDataShared.transformWeatherData"} {
+		if nfi := p.Funcs[k]; nfi != nil {
+			ast.Inspect(nfi.Decl.Body, func(n ast.Node) bool {
+				if se, ok := n.(*ast.SelectorExpr); ok {
+					if sel, ok := nfi.Pkg.TypesInfo.Selections[se]; ok && sel.Kind() == types.FieldVal {
+						if name, _ := namedStruct(sel.Recv()); name == "WeatherDataShared" {
+							normFields[se.Sel.Name] = true
+						}
+					}
+				}
+				return true
+			})
+		}
+	}
 	for _, key := range readers {
 		x := walked(p, key)
 		fn := strings.TrimPrefix(key, "hermes.")
@@ -242,6 +258,15 @@ func c04Pipeline(p *Prog, r *Report, rule string) {
 				if q.Kind == "return" && len(q.Rets) > 0 && isNilPoly(q.Rets[len(q.Rets)-1]) && q.Seq < tr.Seq {
 					ok = false
 					det += "; a success return at " + p.Pos(q.Pos) + " precedes the normalisation"
+				}
+			}
+			// the record is complete when normalisation starts: nothing the two routines read or write is stored by the
+			// reader after the first of them was called (e.g. the year label, which selects the leap-year month limits
+			// of the precipitation correction)
+			for _, q := range x.Events {
+				if q.Kind == "assign" && q.Seq > rep.Seq && strings.HasPrefix(q.Root, "s.") && normFields[strings.TrimPrefix(q.Root, "s.")] {
+					ok = false
+					det += fmt.Sprintf("; %s is stored at %s after the normalisation has run on it", q.Root, p.Pos(q.Pos))
 				}
 			}
 			// both calls unconditional w.r.t. data (only the file-open guards)
@@ -566,8 +591,8 @@ func c04CorrTable(p *Prog, r *Report) {
 
 // ---------------------------------------------------------------- R5 LoadYear
 
-func c04LoadYear(p *Prog, r *Report) {
-	r.Rule("C04.R5", "year lookup copies record t of the selected year to day t: g.X[t] ← s.X[yearIdx][t] with the same t, the year selected by JAR[yearIdx] == year, the day count taken from that year, and an error when the year is not loaded; optional series and the file's scalars are copied exactly when the file has them; the year search visits every loaded year", 20)
+func c04LoadYear(p *Prog, r *Report, rule string) {
+	r.Rule(rule, "year lookup copies record t of the selected year to day t: g.X[t] ← s.X[yearIdx][t] with the same t, the year selected by JAR[yearIdx] == year, the day count taken from that year, and an error when the year is not loaded; optional series and the file's scalars are copied exactly when the file has them; the year search visits every loaded year", 20)
 	x := walked(p, "hermes.LoadYear")
 	if x == nil {
 		r.Ob("LoadYear", "-", false, "LoadYear not found")
@@ -579,6 +604,14 @@ func c04LoadYear(p *Prog, r *Report) {
 		return
 	}
 	yi, t := PAtom(ls[0].Var), PAtom(ls[1].Var)
+	// the day loop copies the records 0 .. (days of that year) − 1 and nothing beyond: the slots behind the year's
+	// last day hold whatever an earlier, longer year left there (the one-file-per-year layout reuses one record,
+	// the multi-year layouts have a zeroed record per year), and the run reads a day or two ahead at the year's end
+	{
+		lo, hi, unit, why := loopBounds(x, ls[1])
+		okb := why == "" && unit && lo.IsZero() && stripVersions(hi).Equal(stripVersions(cellP("s.MaxYearDays", yi).Sub(PInt(1))))
+		r.Ob("copy:day-range", p.Pos(ls[1].Stmt.Pos()), okb, fmt.Sprintf("day loop runs %s .. %s in unit steps (want 0 .. s.MaxYearDays[%s] − 1) %s", polyOr(lo), polyOr(hi), yi, why))
+	}
 	pairs := map[string]string{"TEMP": "TMP", "TMIN": "TMI", "TMAX": "TMA", "RH": "RELF", "RAD": "RADI", "WIND": "WIN", "REGEN": "REG", "SUND": "SUND", "VERD": "VERD", "ETNULL": "ETNULL"}
 	optional := map[string]bool{"SUND": true, "VERD": true, "ETNULL": true}
 	selP := cellP("s.JAR", yi).Sub(pVar("year"))
